@@ -24,46 +24,70 @@ def r1(ctx):
     ctx.floor(8)
 
 
+def _last_subscript(text):
+    """`d[k]` -> `k` (matching brackets, from the end); None if the text does not end in a subscript"""
+    if not text.endswith("]"):
+        return None
+    depth = 0
+    for i in range(len(text) - 1, -1, -1):
+        if text[i] == "]":
+            depth += 1
+        elif text[i] == "[":
+            depth -= 1
+            if depth == 0:
+                return text[i + 1 : -1]
+    return None
+
+
 @rule("C16.R2", "find_duplicates: candidates from the code base minus symlinks; grouping reads content; groups of >= 2 emitted completely")
 def r2(ctx):
     repo = ctx.repo
     f = repo.func("report", "find_duplicates")
-    cbn = codebase_names(repo, f)
-    loops = [n for n in f.node.body if isinstance(n, ast.For) and isinstance(n.iter, ast.Name) and n.iter.id in cbn]
-    ctx.require(len(loops) == 1, "find_duplicates: loop over the code base not found")
-    lp = loops[0]
-    # symlinks skipped
-    g = [s for s in lp.body if isinstance(s, ast.If) and u(s.test).endswith(".is_symlink()") and isinstance(s.body[0], ast.Continue)]
-    ctx.check(len(g) == 1, "report:find_duplicates:symlinks-skipped", "symbolic links must be excepted (`if path.is_symlink(): continue`): a link and its target would otherwise be reported as duplicates, or - if files are de-duplicated by inode instead - hard-linked twins would never be reported and a link could be listed in place of the real file", f.loc(lp))
-    # bucket key
-    bucket = None
-    for s in ast.walk(lp):
-        if isinstance(s, ast.Call) and isinstance(s.func, ast.Attribute) and s.func.attr == "add" and isinstance(s.func.value, ast.Subscript):
-            bucket = s.func.value
-    ctx.require(bucket is not None, "find_duplicates: bucket insertion `<dict>[key].add(path)` not found")
-    bkey = bucket.slice
-    env = {}
-    for s in ast.walk(lp):
-        if isinstance(s, ast.Assign) and isinstance(s.targets[0], ast.Name):
-            env[s.targets[0].id] = s.value
-    kexpr = env.get(bkey.id, bkey) if isinstance(bkey, ast.Name) else bkey
-    content_digest = False
-    if "hashlib.file_digest" in u(kexpr) or "hashlib.sha" in u(kexpr):
-        opens = [w for w in ast.walk(lp) if isinstance(w, ast.With) and any(isinstance(i.context_expr, ast.Call) and u(i.context_expr.func) == "open" and len(i.context_expr.args) > 1 and u(i.context_expr.args[1]) == "'rb'" for i in w.items)]
-        content_digest = len(opens) == 1 and any(x is env.get(getattr(bkey, "id", None)) or u(x) == u(kexpr) for w in opens for x in ast.walk(w))
-    # confirmation
+    # phase 1 (bucketing), decided on the decision table: per code-base file
+    from ..spec import tab, vt
+    import re
+
+    cb = f.params[0]
+    F = f"{cb}[0]"
+    n_link = n_file = 0
     cmpc = [c for c in f.calls() if callee(c) == "filecmp.cmp"]
     deep = bool(cmpc) and all({k.arg: u(k.value) for k in c.keywords}.get("shallow") == "False" for c in cmpc)
-    ctx.check(
-        content_digest or deep,
-        "report:find_duplicates:content-is-read",
-        f"files are bucketed by `{u(kexpr)[:60]}` and confirmed with {'filecmp.cmp(..., shallow=True): equal size and mtime count as equal' if cmpc else 'nothing'}: neither stage reads the bytes, so different files can be reported as duplicates",
-        f.loc(bucket),
-    )
+    seen_keys = set()
+    for p in tab(f, unroll=1):
+        if not any(k.startswith(f"more({cb}#L") and v for k, v in p.atoms.items()):
+            continue
+        link = next((v for k, v in p.atoms.items() if vt(k) in (f"Path({F}).is_symlink()", f"os.path.islink({F})", f"{F}.is_symlink()")), None)
+        adds = [e for e in p.effects if e[0] == "call" and str(e[1]).endswith(".add") and len(e) > 2 and F in vt(e[2])]
+        if link is None:
+            ctx.violation("report:find_duplicates:symlinks-skipped", "symbolic links must be excepted (`if path.is_symlink(): continue`): a link and its target would otherwise be reported as duplicates, or - if files are de-duplicated by inode instead - hard-linked twins would never be reported and a link could be listed in place of the real file", f.loc())
+            break
+        if link:
+            n_link += 1
+            ctx.check(not adds, "report:find_duplicates:symlinks-skipped", "a symbolic link is entered into a bucket", f.loc())
+            continue
+        n_file += 1
+        ok = len(adds) == 1 and vt(adds[0][2]) in (f"Path({F})", F)
+        ctx.check(ok, "report:find_duplicates:every-file-bucketed", f"every regular code-base file must be entered into exactly one bucket: {[(e[1][:60], vt(e[2])) for e in adds]}", f.loc())
+        if not ok:
+            continue
+        kexpr = _last_subscript(vt(adds[0][1])[: -len(".add")])
+        if kexpr is None:
+            raise AnalysisError(f"find_duplicates: bucket insertion `<dict>[key].add(path)` not recognised: {adds[0][1][:80]}")
+        if kexpr in seen_keys:
+            continue
+        seen_keys.add(kexpr)
+        content_digest = re.search(r"hashlib\.(file_digest|sha\d+|sha3_\d+|md5|blake2[bs])\(", kexpr) is not None and re.search(r"open\((Path\()?" + re.escape(F) + r"\)?, 'rb'\)", kexpr) is not None
+        ctx.check(
+            content_digest or deep,
+            "report:find_duplicates:content-is-read",
+            f"files are bucketed by `{kexpr[:80]}` and confirmed with {'filecmp.cmp(..., shallow=True): equal size and mtime count as equal' if cmpc else 'nothing'}: neither stage reads the bytes, so different files can be reported as duplicates",
+            f.loc(),
+        )
+        ctx.check(F in kexpr, "report:find_duplicates:bucket-of-file", f"bucket key `{kexpr[:60]}` does not depend on the file", f.loc())
+    if not (n_link and n_file):
+        raise AnalysisError(f"find_duplicates: bucketing idiom not recognised (link paths {n_link}, file paths {n_file})")
     if cmpc:
-        ctx.check(deep or content_digest, "report:find_duplicates:confirmation", "byte-wise confirmation missing", f.loc(cmpc[0]))
-    # the bucket key must be a function of the file itself
-    ctx.check("path" in {n.id for n in ast.walk(kexpr) if isinstance(n, ast.Name)} or content_digest, "report:find_duplicates:bucket-of-file", f"bucket key `{u(kexpr)[:50]}` does not depend on the file", f.loc(bucket))
+        ctx.check(deep, "report:find_duplicates:confirmation", "byte-wise confirmation missing (filecmp.cmp must be called with shallow=False)", f.loc(cmpc[0]))
     # singleton buckets skipped, groups of >= 2 kept
     conf = [n for n in f.node.body if isinstance(n, ast.For) and ".items()" in u(n.iter)]
     ctx.require(len(conf) == 1, "find_duplicates: confirmation loop over the buckets not found")
